@@ -17,7 +17,7 @@ from . import _utils
 spaceCharactersBytes = frozenset([item.encode("ascii") for item in spaceCharacters])
 asciiLettersBytes = frozenset([item.encode("ascii") for item in asciiLetters])
 asciiUppercaseBytes = frozenset([item.encode("ascii") for item in asciiUppercase])
-spacesAngleBrackets = spaceCharactersBytes | frozenset([b">", b"<"])
+spacesClosingBracket = spaceCharactersBytes | frozenset([b">"])
 
 
 invalid_unicode_no_surrogate = "[\u0001-\u0008\u000B\u000E-\u001F\u007F-\u009F\uFDD0-\uFDEF\uFFFE\uFFFF\U0001FFFE\U0001FFFF\U0002FFFE\U0002FFFF\U0003FFFE\U0003FFFF\U0004FFFE\U0004FFFF\U0005FFFE\U0005FFFF\U0006FFFE\U0006FFFF\U0007FFFE\U0007FFFF\U0008FFFE\U0008FFFF\U0009FFFE\U0009FFFF\U000AFFFE\U000AFFFF\U000BFFFE\U000BFFFF\U000CFFFE\U000CFFFF\U000DFFFE\U000DFFFF\U000EFFFE\U000EFFFF\U000FFFFE\U000FFFFF\U0010FFFE\U0010FFFF]"  # noqa
@@ -783,16 +783,11 @@ class EncodingParser(object):
                 data.previous()
             return True
 
-        c = data.skipUntil(spacesAngleBrackets)
-        if c == b"<":
-            # return to the first step in the overall "two step" algorithm
-            # reprocessing the < byte
-            data.previous()
-        else:
-            # Read all attributes
+        data.skipUntil(spacesClosingBracket)
+        # Read all attributes
+        attr = self.getAttribute()
+        while attr is not None:
             attr = self.getAttribute()
-            while attr is not None:
-                attr = self.getAttribute()
         return True
 
     def handleOther(self):
@@ -865,7 +860,7 @@ class EncodingParser(object):
         # Step 11
         while True:
             c = next(data)
-            if c in spacesAngleBrackets:
+            if c in spacesClosingBracket:
                 return b"".join(attrName), b"".join(attrValue)
             elif c in asciiUppercaseBytes:
                 attrValue.append(c.lower())
